@@ -74,6 +74,13 @@ def gen_corpus(rng, n_random):
         for st in (0, 1, 2):
             r0 = rand_record(rng)
             out.append(("valid-negative-bound%d-status%d" % (nb, st), 0, header(gen=rng.choice([2, 8])) + record(r0[:4] + (nb,) + (r0[5], st))))
+    # every header byte, one at a time: lowest bit flipped, all zeros, all ones
+    for i in range(16):
+        for what, f in (("bit0", lambda x: x ^ 1), ("zero", lambda x: 0), ("ones", lambda x: 0xff)):
+            b = bytearray(header(gen=rng.choice([2, 4, 100])) + record(rand_record(rng)))
+            if f(b[i]) != b[i]:
+                b[i] = f(b[i])
+                out.append(("header-byte-%d-%s" % (i, what), 0, bytes(b)))
     out.append(("old-magic-doc-bytes", 0, bytes([0x41, 0x4D, 0x5A, 0x4E, 0x43, 0x42, 0x02, 0x00]) + valid[8:]))
     out.append(("text", 0, b"foobarbaz"))
     out.append(("missing", 1, b""))
